@@ -338,6 +338,9 @@ func (eng *Engine) runTop(c *FnCtx, fn *ssa.Function, fs *FuncSpec) {
 	for _, g := range fs.Ghosts {
 		ghosts[g.Name] = env.vars[g.Name]
 	}
+	for _, l := range fs.Lets {
+		ghosts[l.Name] = c.freshVal("let_"+l.Name, eng.resolveType(env.pkg, l.Type))
+	}
 	c.ghosts = ghosts
 	c.modLocs = env.evalModLocs(fs.Modifies, fs.ModSrc)
 	c.hasMod = true
@@ -353,7 +356,19 @@ func (eng *Engine) runTop(c *FnCtx, fn *ssa.Function, fs *FuncSpec) {
 			c.useLemma(u, &entryEnv)
 		}
 	}
+	c.hookHits = map[string]bool{}
 	rets := f.run(args, st)
+	// a call-site clause that matches no call site would be vacuous
+	for _, a := range fs.Asserts {
+		if k := fmt.Sprintf("call %s#%d", a.Callee, a.Ordinal); !c.hookHits[k] {
+			panic(specErr("clause at %s matches no call site of %s (callee keys are package-qualified, e.g. (*lexer.PeekingLexer).Next)", k, fs.Key))
+		}
+	}
+	for _, l := range fs.Lets {
+		if k := fmt.Sprintf("call %s#%d", l.Callee, l.Ordinal); !c.hookHits[k] {
+			panic(specErr("let %s: %s matches no call site of %s", l.Name, k, fs.Key))
+		}
+	}
 	// vacuity cover: some return is reachable
 	var anyRet []*Term
 	for _, r := range rets {
@@ -366,6 +381,10 @@ func (eng *Engine) runTop(c *FnCtx, fn *ssa.Function, fs *FuncSpec) {
 			renv.vars[k] = v
 		}
 		renv.lookup = freeLookup(r.st)
+		renv.entry = f.entryParams()
+		for k := range renv.vars {
+			delete(renv.entry, k) // parameters keep their own treatment (vars hold the entry arguments)
+		}
 		for _, u := range fs.Uses {
 			if u.At == "exit" {
 				c.useLemma(u, renv)
